@@ -186,6 +186,8 @@ def run(tier, replay=None):
             failing[e] = v
 
     cases, dist, cands = build_cases(ctx, tier, rng)
+    if replay and "args" not in json.load(open(replay))["replay"]:
+        replay = None          # a replay that names a theorem / correspondence: run everything
     if replay:
         r = json.load(open(replay))["replay"]
         keep = [c for c in cases if c.entry == r["entry"] and describe(c)["status"] == r["status"] and
@@ -213,7 +215,8 @@ def run(tier, replay=None):
         if "ptrs" not in c.nat:
             continue
         actual = c.nat["ptrs"].split(",") if c.nat["ptrs"] != "-" else []
-        jl.append(wc.judge_line(c.cid, "13", c.eid, c.nat, c.stubret, None, assignment(ctx, c, cands[c.eid].keys(), actual)))
+        stores = {int(e.split(":")[1][1:]) for e in c.pred.get("events", []) if e.startswith("W:A")}
+        jl.append(wc.judge_line(c.cid, "13", c.eid, c.nat, c.stubret, None, assignment(ctx, c, cands[c.eid].keys(), actual), real=(c.mode == "r"), stores=stores))
     jout = ctx.model_lines(jl)
     verdicts = {k: (v.split()[1] if len(v.split()) > 1 else "?") for k, v in jout.items()}
     wb = None
@@ -261,7 +264,7 @@ def run(tier, replay=None):
             t = l.split()
             rep.violation("FIPS library, self-tests run on first use, %s vs its legacy counterpart: %s" % (t[2], dout[cid]),
                           {"pair": t[2], "seed": t[3], "len": t[4], "result": dout[cid]}, {"entry": t[2], "kind": "passed_gate_blocks_or_differs"})
-    for e, line in failing.items():
+    for e, line in (failing.items() if not replay else []):
         name = ctx.byid[e]
         if not any(c.entry == name and verdicts.get(c.cid) != "accept" for c in cases):
             rep.violation("verified checker check13 rejects %s (witness %s) but no failing input was found on the real wrapper" % (name, line),
